@@ -186,6 +186,22 @@ class Flow:
         if 'dc' in el:
             if e[0] == 'agg' and e[1] == 'adt' and e[2].endswith('::' + el['dc']):
                 return e
+            if e[0] == 'local' and e[1] not in self.partial and depth < MAXDEPTH:
+                # a join point all of whose assignments build enum variants: reading it *as variant V* can only see an
+                # assignment of V (`?` reads an Ok as Continue, an Err as Break); if there is exactly one, it is that one
+                ds = self.defs.get(e[1], [])
+                def var_of(d):
+                    if d[0] == 'assign' and d[3]['k'] == 'agg' and d[3].get('ak') == 'adt' and 'var' in d[3]:
+                        return d[3]['var']
+                    if d[0] == 'call' and strip_generics(d[2].get('fn', '')).endswith('FromResidual::from_residual'):
+                        return '<residual>'     # the failing arm of a `?`: an Err / None, never the success variant
+                    return None
+                vs = [var_of(d) for d in ds]
+                if len(ds) >= 2 and all(v is not None for v in vs):
+                    want = {el['dc'], {'Continue': 'Ok', 'Break': 'Err'}.get(el['dc'], el['dc'])}
+                    hit = [d for d, v in zip(ds, vs) if v in want]
+                    if len(hit) == 1 and hit[0][0] == 'assign' and (el['dc'] in ('Ok', 'Some', 'Continue') or '<residual>' not in vs):
+                        return self.rvalue(hit[0][3], depth + 1)
             return ('variant', e, el['dc'])
         return ('top',)
 
@@ -237,11 +253,14 @@ class Flow:
                 return out
         if e[0] == 'local' and e[1] not in _seen:
             ds = self.defs.get(e[1], [])
-            if ds and all(d[0] == 'assign' for d in ds) and e[1] not in self.partial:
+            if ds and all(d[0] in ('assign', 'call') for d in ds) and e[1] not in self.partial:
                 _seen.add(e[1])
                 out = []
                 for d in ds:
-                    out += self.sources(self.rvalue(d[3], 0), (d[1], d[2]), _seen, stop)
+                    if d[0] == 'assign':
+                        out += self.sources(self.rvalue(d[3], 0), (d[1], d[2]), _seen, stop)
+                    else:
+                        out += self.sources(self.call(d[2], d[1], 0), (d[1], None), _seen, stop)
                 return out
         return [(site[0] if site else None, site[1] if site else None, e)]
 
